@@ -934,7 +934,7 @@ pub fn replay(pid: &str, v: &Value) -> Vec<Failure> {
 
 pub fn run(ctx: &Ctx, pid: &'static str) -> ! {
     let with_time = pid == "C15" || pid == "C12";
-    let cases = ctx.tier.pick(24_000u32, 1_200_000);
+    let cases = ctx.tier.pick(96_000u32, 2_400_000);
     let max_ops = if pid == "C13" || pid == "C14" { 60 } else { 40 };
     let mut st = parallel(|w, st| {
         let strat = scenario_s(max_ops, with_time);
